@@ -27,6 +27,7 @@ let stages : (Stdlib.String.t * (Stdlib.String.t list -> n list)) list = [
   "parse", (fun f -> show_parse (unhex (List.nth f 0)));
   "spans", (fun f -> show_spans (unhex (List.nth f 0)));
   "gram", (fun f -> show_gram (unhex (List.nth f 0)));
+  "glue", (fun f -> show_glue (unhex (List.nth f 0)));
   "walk", (fun f ->
      let m = (match f with _ :: m :: _ -> (try int_of_string m with _ -> -1) | _ -> -1) in
      show_walk (if m < 0 then None else Some (nat_of_int m)) (unhex (List.nth f 0)));
